@@ -22,7 +22,12 @@ use crate::{scn_tr, Scenario};
 type T = tr::Secp256K1Sha256TR;
 
 pub fn scenarios() -> Vec<Scenario> {
-    vec![scn_tr!(scenario_taproot_signing), scn_tr!(scenario_taproot_dkg_key), scn_tr!(scenario_taproot_cheaters)]
+    vec![
+        scn_tr!(scenario_taproot_signing),
+        scn_tr!(scenario_taproot_dkg_key),
+        scn_tr!(scenario_taproot_cheaters),
+        crate::wrap::scn_taproot_tweak(1),
+    ]
 }
 
 fn xonly(vk: &fc::VerifyingKey<T>) -> Result<(Vec<u8>, bool), Stop> {
